@@ -16,10 +16,11 @@ SPEC = {
             "multi-window and unsorted writes; distinct = distinct input; non-trivial = inside the guard with >= 2 writes and >= 4 bars",
     "trusted_base": [
         "Coq 8.16.1 kernel + vm_compute (no native_compute)",
-        "Flocq 4.1.0 (IEEE754.BinarySingleNaN) as the meaning of Go's float32 >, <, +; C24_bar, C24_refuted, C24_refuted_late mention "
-        "float operations and so inherit ClassicalDedekindReals.sig_forall_dec, ClassicalDedekindReals.sig_not_dec, "
-        "FunctionalExtensionality.functional_extensionality_dep, Classical_Prop.classic from Flocq's validity proofs; C24_guarded, "
-        "C24_aggregate, C24_aggregate_sorted, C24_guard_sound are closed under the global context",
+        "Flocq 4.1.0 (IEEE754.BinarySingleNaN) as the meaning of Go's float32 >, <, +; every statement that mentions the model's "
+        "aggregate (it adds and compares float32 values) inherits ClassicalDedekindReals.sig_forall_dec, "
+        "ClassicalDedekindReals.sig_not_dec, FunctionalExtensionality.functional_extensionality_dep, Classical_Prop.classic from the "
+        "validity proofs inside Flocq's operations (no proof step of this development uses them); C24_guard_sound is closed under "
+        "the global context",
         "hand-written model coq/Model/AggTrigger.v of aggtrigger.go (Fire, write, writeAggregates, aggregate, cachedAgg.Valid, "
         "UpperBound), the accumulator functions, io.ColumnSeriesUnion, io.SliceColumnSeriesByEpoch, trigger.RecordsToColumnSeries, on an "
         "abstract fixed-length store (one bar per slot, last writer wins) and range query; tied by in-Coq evaluation of every "
@@ -40,7 +41,7 @@ SPEC = {
                   "aggregation is (one bar per window with base bars: first open, highest high, lowest low, last close, summed volume). "
                   "C24_refuted (rewrite inside the cached window) and C24_refuted_late (write before the cached window) exhibit F20 on "
                   "the faithful model; both witnesses plus two more classes are replayed on the real trigger on a real instance.",
-    "level_note": "Axioms: none for the guarded theorem; the float-mentioning statements inherit Flocq's standard real-number axioms. "
+    "level_note": "Axioms: only the standard real-number/classical axioms inherited through Flocq's float operations. "
                   "Trusted: Coq kernel/VM, harness. Modelled not verified: contrib/ondiskagg/aggtrigger/*.go, columnseries.go:298-396, "
                   "plugins/trigger/trigger.go:86; the store/query underneath is the abstract interval map of C08/C11.",
     "design_ref": "§6 C24, §8 F20",
